@@ -1,4 +1,5 @@
 import BufProofs.Lemmas.DigestLemmas
+import BufModel.DigestHistory
 /-
   C08 — Module digests are a pure, sensitive function of content; manifests canonical.
   Property theorems only; helper lemmas live in BufProofs/Lemmas/{Manifest,Digest}Lemmas.lean.
@@ -916,5 +917,94 @@ example : ∀ (i : Nat) (m : Mod), ([⟨[], true, [1], []⟩, ⟨[], true, [2], 
   | 2, hm => simp at hm; subst hm; simp at hj
   | n + 3, hm => simp at hm
 
+
+/-! ### History independence (what Section H of the harness ties to the implementation)
+
+"A digest is a function of (path, content) pairs and dependency digests ONLY" also excludes the
+history of the process.  In the model that holds BY CONSTRUCTION: `H c`, `moduleB5 H b deps` are
+plain functions, no hasher / pool / cache is threaded through them.  The theorems below state it
+over histories (`BufModel.DigestHistory`): a process state `σ` of any type evolves under an
+arbitrary `upd` along a list of operations — healthy digest computations and computations whose
+read failed after a prefix was absorbed — and every answer equals the stateless `answer` of its
+operation, whatever the prefix of the history and the initial state.
+
+The tie to the IMPLEMENTATION is not a proof: it is Section H of `harness/cmd/c08`
+(history.go), which drives `shake256.NewDigestForContent`, `bufcas.NewDigestForContent` /
+`NewBlobForContent` / `NewFileSetForBucket`, `Module.Digest` (b5 remote / local / two-module
+set, b4) through such histories — reads failing after k bytes around 0, 136 (sponge rate) and
+32 KiB (io.Copy buffer), `(n>0, err)`, panicking readers, cancelled contexts; on one P with a
+locked thread, unpinned, and concurrently — and compares every healthy answer with an
+independent SHAKE256 recomputation and with a fresh process; small histories also reach the
+driver as `hist` lines answered by `DigestHistory.answers`.  `Pooled` is the counter-model of
+the regression that section exists for (seed C08-m6: pooled hasher, Reset on success only). -/
+section History
+open BufModel.DigestHistory
+
+/-- Running a history from ANY process state under ANY state evolution gives exactly the
+    stateless answers: the model's digests carry no state. -/
+theorem digest_history_independent {σ : Type} (H : Bytes → Digest) (upd : σ → Op → σ) (s : σ) (ops : List Op) :
+    run H upd s ops = answers H ops := by
+  induction ops generalizing s with
+  | nil => rfl
+  | cons op rest ih => simp only [run, answers, List.map_cons, ih, answers]
+
+/-- The answer of a step is the answer of that step alone, whatever came before it (`pre`: any
+    mix of healthy and failed computations), after it, and whatever the process state was. -/
+theorem healthy_step_after_any_history {σ : Type} (H : Bytes → Digest) (upd : σ → Op → σ) (s : σ)
+    (pre post : List Op) (op : Op) :
+    (run H upd s (pre ++ op :: post))[pre.length]? = some (answer H op) := by
+  rw [digest_history_independent]
+  simp [answers]
+
+/-- Content level: after any history, the digest of content `c` is `H c`. -/
+theorem content_digest_after_any_history {σ : Type} (H : Bytes → Digest) (upd : σ → Op → σ) (s : σ)
+    (pre post : List Op) (c : Bytes) :
+    (run H upd s (pre ++ Op.content c :: post))[pre.length]? = some (Ans.digest (H c)) :=
+  healthy_step_after_any_history H upd s pre post (Op.content c)
+
+/-- Module level: after any history (failed module digests included), `Module.Digest(b5)` of
+    bucket `b` with dependency digests `deps` is `moduleB5 H b deps` — the function that
+    `digest_is_function_of_module_files` / `digest_sensitive` speak about. -/
+theorem moduleB5_after_any_history {σ : Type} (H : Bytes → Digest) (upd : σ → Op → σ) (s : σ)
+    (pre post : List Op) (b : Bucket) (deps : List MDigest) :
+    (run H upd s (pre ++ Op.b5 b deps :: post))[pre.length]? = some (Ans.mdigest (moduleB5 H b deps)) :=
+  healthy_step_after_any_history H upd s pre post (Op.b5 b deps)
+
+/-- Two processes with different pasts (different histories, states, state evolutions) answer
+    the same operation identically — "the digest computed in a fresh process" of Section H is
+    the instance `pre₂ = []`. -/
+theorem same_answer_in_any_two_processes {σ τ : Type} (H : Bytes → Digest)
+    (upd₁ : σ → Op → σ) (s₁ : σ) (upd₂ : τ → Op → τ) (s₂ : τ) (pre₁ pre₂ : List Op) (op : Op) :
+    (run H upd₁ s₁ (pre₁ ++ [op]))[pre₁.length]? = (run H upd₂ s₂ (pre₂ ++ [op]))[pre₂.length]? := by
+  rw [healthy_step_after_any_history, healthy_step_after_any_history]
+
+/-- The shape HEAD has (a fresh / reset hasher at the START of every call) is history
+    independent even when written as a state machine over the leftover of a reused hasher. -/
+theorem pooled_reset_first_history_independent (H : Bytes → Digest) (s : Pooled.State) (ops : List Op) :
+    Pooled.runResetFirst H s ops = answers H ops := by
+  induction ops generalizing s with
+  | nil => rfl
+  | cons op rest ih =>
+    cases op <;> simp only [Pooled.runResetFirst, Pooled.stepResetFirst, answers, List.map_cons, answer,
+      List.nil_append, ih] <;> rfl
+
+/-- Recorded counter-model (seed C08-m6): with a pooled hasher that is Reset on the success path
+    only, a read that failed after absorbing `[1]` makes the NEXT digest `H [1, 2]` instead of
+    `H [2]` — the answer depends on the history; a failure after 0 bytes leaves no trace (why the
+    harness sweeps k).  Not the model of the code: the documented shape of the regression. -/
+theorem pooled_history_dependent_counterexample :
+    Pooled.run toyH [] [Op.contentFail [1], Op.content [2]] = [Ans.failed, Ans.digest (toyH [1, 2])] ∧
+    answers toyH [Op.contentFail [1], Op.content [2]] = [Ans.failed, Ans.digest (toyH [2])] ∧
+    toyH [1, 2] ≠ toyH [2] ∧
+    Pooled.run toyH [] [Op.contentFail [], Op.content [2]] = [Ans.failed, Ans.digest (toyH [2])] :=
+  ⟨rfl, rfl, by decide, rfl⟩
+
+-- the hypotheses-free statements above are inhabited by a concrete mixed history
+example : (run toyH (fun (n : Nat) _ => n + 1) 0
+    [Op.b5Fail exA [] "a.proto".toList 1, Op.contentFail [7], Op.content [2], Op.b5 exA []])[2]? =
+    some (Ans.digest (toyH [2])) :=
+  healthy_step_after_any_history toyH _ 0 [Op.b5Fail exA [] "a.proto".toList 1, Op.contentFail [7]] [Op.b5 exA []] (Op.content [2])
+
+end History
 
 end BufProofs.C08
